@@ -18,6 +18,8 @@ pub enum Act {
   Unsub(usize),
   /// the subscription was wrapped in utils::Using; drop the guard
   UsingDrop(usize),
+  /// ... and the guard goes out of scope because its owner panics (dropped while unwinding)
+  UsingDropUnwinding(usize),
   /// declaration (a no-op as a step): when root `outer`'s subscriber receives
   /// `trig`, its callback subscribes root `inner` to the same Observable value
   Nest { outer: usize, trig: Trig, inner: usize },
@@ -76,6 +78,7 @@ impl Case {
         Act::Sub(r) => format!("sub#{}", r),
         Act::Unsub(r) => format!("unsub#{}", r),
         Act::UsingDrop(r) => format!("drop-using#{}", r),
+        Act::UsingDropUnwinding(r) => format!("drop-using-while-unwinding#{}", r),
         Act::Nest { outer, trig, inner } => format!("[#{} subscribes #{} from its callback at {:?}]", outer, inner, trig),
         Act::Emit(i, e) => format!("s{}!{}", i, e.show()),
       })
@@ -498,6 +501,16 @@ pub fn run_real(case: &Case, opts: &RunOpts) -> Trace {
             drop(guard);
           }
         }
+        Act::UsingDropUnwinding(r) => {
+          if let Some(s) = &subs[*r] {
+            struct UnwindProbe;
+            let guard = utils::Using::new(s.clone());
+            let _ = std::panic::catch_unwind(std::panic::AssertUnwindSafe(move || {
+              let _guard = guard;
+              std::panic::panic_any(UnwindProbe);
+            }));
+          }
+        }
         Act::Nest { .. } => {}
       }
       for (r, s) in rec.nested_subs.lock().unwrap().iter() {
@@ -578,7 +591,7 @@ pub fn run_ref(case: &Case) -> Trace {
     match act {
       Act::Sub(r) => roots[*r] = Some(w.subscribe_root(&case.pipeline, rec_id(*r))),
       Act::Emit(i, ev) => w.hot_emit(*i, ev.clone()),
-      Act::Unsub(r) | Act::UsingDrop(r) => {
+      Act::Unsub(r) | Act::UsingDrop(r) | Act::UsingDropUnwinding(r) => {
         if let Some(id) = roots[*r] {
           w.unsubscribe_root(id)
         }
